@@ -573,8 +573,14 @@ def c07(seed, tier):
         fields, lat = rand_struct(rng, "T", rng.randint(1, 12), 2 if i % 3 == 0 else 0)
         cases = cases_from_lattices(rng, lat, per, exhaustive_bits=min(5, len(lat)))
         cases.append(case([], nil=True))
-        scen.append(scenario("c07s%d" % i, [struct("T", fields, cases)]))
+        gendoc = []
+        if i % 3 == 1 and rng.random() < 0.6:
+            # struct-level markers on flat structs (they combine with - never replace - the markers of the fields)
+            gendoc = rng.choice([["//govalid:required"], ["//govalid:maxlength=50"], ["//govalid:gte=0", "//govalid:required"], ["//govalid:maxlength=2", "//govalid:minitems=1"]])
+        scen.append(scenario("c07s%d" % i, [struct("T", fields, cases, gendoc=gendoc)]))
     scen += name_variety("c07n")
+    scen += override_shapes("c07")
+    scen += unmarked_nested_first("c07")
     scen += known_shapes("c07k")
     return {"scenarios": scen}
 
@@ -612,6 +618,36 @@ def name_variety(prefix):
     out.append(scenario(prefix + "nest", [struct("N_1", nf, [case([]), case([set_str("Out_er.In_ner", b"x"), set_str("Out_er.Ñ.Deep_1", b"ab"), set_str("Z9", b"a@b.cd")]),
                                                         case([set_str("Out_er.Ñ.Deep_1", b"a"), set_str("Z9", b"a@b")])])]))
     return out
+
+
+def override_shapes(prefix):
+    """a struct-level marker, a field in the MIDDLE that repeats it with another parameter, and later fields that rely on the
+    struct-level one (a per-field override must not leak to the fields declared after it)"""
+    s, i64 = basic("string"), basic("int")
+    prof = struct("Profile", [fld("Code", ["//govalid:maxlength=3"], s), fld("Name", [], s), fld("Bio", ["//govalid:required"], s),
+                              fld("Level", ["//govalid:gte=0"], i64), fld("Age", [], i64), fld("Rank", [], i64)],
+                  [case([set_str("Code", b"abc"), set_str("Name", b"abcdefg"), set_str("Bio", b"hello"), set_int("Level", 20), set_int("Age", 30), set_int("Rank", 18)]),
+                   case([set_str("Code", b"abc"), set_str("Name", b"abcdefghijk"), set_str("Bio", b"hello"), set_int("Level", 5), set_int("Age", 5), set_int("Rank", 17)]),
+                   case([set_str("Code", b"abcd"), set_str("Name", b"abcd"), set_str("Bio", b""), set_int("Level", -1), set_int("Age", 18), set_int("Rank", 0)]),
+                   case([])],
+                  gendoc=["//govalid:maxlength=10", "//govalid:gte=18"])
+    first = struct("First", [fld("A", ["//govalid:enum=x"], s), fld("B", [], s), fld("C", [], s)],
+                   [case([set_str("A", b"x"), set_str("B", b"y"), set_str("C", b"z")]), case([set_str("A", b"y"), set_str("B", b"x"), set_str("C", b"q")]), case([])],
+                   gendoc=["//govalid:enum=x,y,z"])
+    return [scenario(prefix + "ovr", [prof, first])]
+
+
+def unmarked_nested_first(prefix):
+    """an inline struct WITHOUT markers declared before the first marked field, at the top level and inside a nested struct"""
+    s = basic("string")
+    acct = struct("Account", [fld("Settings", [], nested=[fld("Theme", [], s)]), fld("Owner", ["//govalid:required"], s)],
+                  [case([]), case([set_str("Owner", b"o")])])
+    prof = struct("Profile", [fld("ID", ["//govalid:required"], s),
+                              fld("Contact", [], nested=[fld("Social", [], nested=[fld("Handle", [], s)]), fld("Email", ["//govalid:email"], s)]),
+                              fld("Tail", [], nested=[fld("Empty", [], nested=[fld("X", [], s)]), fld("Deep", [], nested=[fld("Y", ["//govalid:minlength=2"], s)])])],
+                  [case([]), case([set_str("ID", b"p"), set_str("Contact.Email", b"not-an-email"), set_str("Tail.Deep.Y", b"ab")]),
+                   case([set_str("ID", b"p"), set_str("Contact.Email", b"a@b.cd"), set_str("Tail.Deep.Y", b"a")])])
+    return [scenario(prefix + "unf", [acct, prof])]
 
 
 def known_shapes(prefix):
@@ -748,6 +784,8 @@ def c09(seed, tier):
                [case([]), case([set_str("A", b"x"), set_str("B", b"q"), set_str("C", b"x")]), case([set_str("A", b"x"), set_str("B", b"x"), set_str("C", b"q")]),
                 case([set_str("A", b"y"), set_str("B", b"q"), set_str("C", b"y")])],
                gendoc=["//govalid:enum=x,y,q", "//govalid:required"])]))
+    scen += override_shapes("c09")
+    scen += unmarked_nested_first("c09")
     # embedded fields
     scen.append(scenario("c09emb", [
         struct("T", [fld([], [], T("Base", "TNamed TStructT", "opaque")), fld("A", [], s), fld([], ["//govalid:required"], T("*Base2", "TPointer", "nilable"))],
@@ -793,6 +831,13 @@ def c08(seed, tier):
         fld("A", ['//govalid:enum=a"b,c\\d, e f'], s), fld("B", ["//govalid:enum=`,'"], s)],
         [case([]), case([set_str("A", b'a"b'), set_str("B", b"`")]), case([set_str("A", b"c\\d"), set_str("B", b"'")])])]))
     scen += name_variety("c08n")
+    scen += unmarked_nested_first("c08")
+    # source file names related to the type names (output files are derived from both), several structs per file
+    s_ = basic("string")
+    one = lambda nm, fl: struct(nm, [fld("A", ["//govalid:required"], s_)], [case([]), case([set_str("A", b"x")])], file=fl)
+    scen.append(scenario("c08files", [one("Order", "order"), one("OrderItem", "order"), one("Item", "order"), one("Orders", "order"),
+                                      one("Ab", "a_b"), one("AB", "a"), one("B", "a"), one("Validator", "validator"), one("V", "x.y"), one("Upper", "UPPER"),
+                                      one("Model", "model"), one("ModelModel", "model"), one("Tt", "t"), one("T", "t")]))
     scen += known_shapes("c08k")
     return {"scenarios": scen}
 
@@ -835,6 +880,12 @@ def c15(seed, tier):
     # a single field; a required on a type with an empty condition (no check but a validator)
     shapes.append(("one", [fld("A", ["//govalid:required"], s)], []))
     shapes.append(("emptycond", [fld("O", ["//govalid:required"], OTHER_STRUCT), fld("A", ["//govalid:required"], s)], []))
+    # markers inside the element struct of a slice / array / map / pointer type (ignored by the generator: finding D37); whatever
+    # the generator does with them, the context contract must hold; the collection is the last validated field
+    ELEMS = T("[]struct {\n\t\t//govalid:required\n\t\tSKU string\n\t}", "TSlice", "coll")
+    ELEMP = T("*struct {\n\t\t//govalid:required\n\t\tK string\n\t}", "TPointer", "nilable")
+    shapes.append(("elems", [fld("A", ["//govalid:required"], s), fld("P", [], ELEMP), fld("Lines", ["//govalid:minitems=1"], ELEMS)], []))
+    shapes.append(("elems2", [fld("A", ["//govalid:required"], s), fld("Lines", [], ELEMS)], []))
     for nm, fields, gendoc in shapes:
         lat = []
 
@@ -856,9 +907,9 @@ def c15(seed, tier):
                 valid.append(set_int(p, 3))
                 invalid.append(set_int(p, -9))
             elif vk == "coll":
-                valid.append(set_coll(p, False, 1))
+                valid.append(set_coll(p, False, 4 if nm.startswith("elems") else 1))
                 invalid.append(set_coll(p, True, 0))
-        nf = len(lat)
+        nf = len(lat) + (4 if nm.startswith("elems") else 0)
         base = [case(valid), case(invalid), case([x if i % 2 else y for i, (x, y) in enumerate(zip(valid, invalid))])]
         cases = with_ctx_flips(base, nf + 3)
         cases.append(case([], nil=True, flip=0))
